@@ -8,6 +8,15 @@
 //!       target `R1` and checks that `draw` emits exactly the same pixel sequence in one
 //!       `draw_iter` call.
 //!
+//!   thick.bbox x0 y0 x1 y1 w   -> `bounding_box()` of the same styled line (`styled_bounding_box`,
+//!       i.e. `Line::extents(w, StrokeOffset::None)`), as `x,y,w,h`; compared with
+//!       `Thick.styledBoundingBox`. Oracle `C02:line-bbox-contains-pixels` (counts for C02 only):
+//!       every pixel of `pixels()` lies inside that box.
+//!
+//! Lean statements mirrored: `thick_width1_eq_points` (C17:thick-width1), `thick_contains_thin`
+//! (C17:thick-contains-thin; proved in the stronger form "the pixel sequence starts with points()");
+//! the other predicates are `-- [V]` sub-claims of lean/EG/Props/C17.lean (oracle only).
+//!
 //! Oracle = the second sentence of C17 as predicates on the real pixel list, with FIXED metrics,
 //! all in exact integer arithmetic (i128). Notation: s = start, d = (dx, dy) = end - start,
 //! L2 = dx^2 + dy^2 (L = sqrt(L2) is never computed), and for a pixel p with v = p - s:
@@ -127,6 +136,14 @@ impl Module for M {
                 emit(format!("thick.points 1 -1 {} {} 0", 1 + dx, -1 + dy));
             }
         }
+        let rb = if tier == Tier::Quick { 6 } else { 12 };
+        for dx in -rb..=rb {
+            for dy in -rb..=rb {
+                for w in 0..=(if tier == Tier::Quick { 7 } else { 12 }) {
+                    emit(format!("thick.bbox -3 2 {} {} {}", -3 + dx, 2 + dy, w));
+                }
+            }
+        }
         if tier == Tier::Quick {
             emit_grid(9, 7, emit);
         } else {
@@ -186,6 +203,18 @@ impl Module for M {
                     format!("{:?}->{:?} w={} draw() differs from pixels()", s, e, w)
                 });
                 pts_digest(&px)
+            }
+            "thick.bbox" => {
+                let s = t.point();
+                let e = t.point();
+                let w = t.u32();
+                let styled = Line::new(s, e).into_styled(PrimitiveStyle::with_stroke(BinaryColor::On, w));
+                let bb = styled.bounding_box();
+                ctx.count("thick:bbox");
+                ctx.expect(styled.pixels().all(|Pixel(p, _)| bb.contains(p)), "C02:line-bbox-contains-pixels", || {
+                    format!("{:?}->{:?} w={} pixel outside {:?}", s, e, w, bb)
+                });
+                fmt_rect(&bb)
             }
             _ => panic!("unknown op {}", op),
         }
